@@ -24,10 +24,33 @@ def frag_lines(rng, payload, fill, n, mid, wild=False):
     lines = []
     # some transmitters put a fill count on every fragment: it is legal and only the last one's matters
     odd_fill = rng.random() < 0.25
+    # a group is identified by its count, numbering and sequence id alone: channel, talker, sentence formatter,
+    # start delimiter and tag block may differ from one fragment to the next (one group in three)
+    vary = rng.random() < 0.33
     for i, p in enumerate(pieces):
         fl = fill if i == n - 1 else (rng.randrange(6) if odd_fill else 0)
-        lines.append(ais.sentence(p, fill=fl, nf=n, fn=i + 1, mid=mid, channel=ch))
+        kw = {}
+        if vary:
+            kw = dict(channel=rng.choice([b"A", b"B", b"", b"1", b"2", ch]),
+                      talker=rng.choice([b"AI", b"AI", b"AB", b"BS", b"SA", b"XX"]),
+                      report=rng.choice([b"VDM", b"VDM", b"VDO", b"VDX"]),
+                      delim=rng.choice([b"!", b"!", b"$"]),
+                      tagblock=rng.choice([None, None, b"s:r%d,c:%d*00" % (i, 1700000000 + i)]))
+        else:
+            kw = dict(channel=ch)
+        lines.append(ais.sentence(p, fill=fl, nf=n, fn=i + 1, mid=mid, **kw))
     return pieces, lines
+
+
+_NEAR = {}
+
+
+def _near_pool(rng):
+    """near_misses() is a few hundred lines; one pool per generator stream, refreshed now and then."""
+    k = id(rng)
+    if k not in _NEAR or rng.random() < 0.02:
+        _NEAR[k] = near_misses(rng)
+    return _NEAR[k]
 
 
 def noise_line(rng):
@@ -50,7 +73,7 @@ def noise_line(rng):
     if r < 0.65:
         return rand_bytes(rng, rng.choice([0, 3, 20]))
     if r < 0.8:
-        l = rng.choice(near_misses(rng))
+        l = rng.choice(_near_pool(rng))
         ref = ref_sentence(l)
         if ref[0] == "ok" and ref[1]["nf"] != 1:
             return l.replace(b"!", b"#", 1)     # would be a fragment of some group: not noise
@@ -243,9 +266,25 @@ class C06:
         # ids 0 and "absent" are different ids; 255 is the largest
         return self.alphabet() + [(n, k, mid) for n in (2, 3) for k in range(1, n + 1) for mid in (0, 255)]
 
-    def mk(self, rng, n, k, mid, tag, big=0):
+    def mk(self, rng, n, k, mid, tag, big=0, alias=False):
         payload = bytes([48 + n, 48 + k, 48 + (mid or 0) % 40]) + tag + (gen.random_alphabet(rng, big) if big else b"")
-        return ais.sentence(payload, nf=n, fn=k, mid=mid, fill=0)
+        kw = {}
+        if alias:
+            # the same numbering spelled in a way only a lenient number parser would take for it (value + 256,
+            # a sign, a blank): such a line is rejected and must not continue, open or close anything; leading
+            # zeros are the one legal respelling
+            def sp(v):
+                d = str(v).encode()
+                return rng.choice([str(v + 256).encode(), str(v + 512).encode(), b"+" + d, b" " + d, d + b" ", b"-" + d,
+                                   b"00" + d, b"0" + d, b"0" + str(v + 256).encode()])
+            which = rng.choice(["nf", "fn", "mid", "nf+fn"])
+            if "nf" in which:
+                kw["nf_txt"] = sp(n)
+            if "fn" in which:
+                kw["fn_txt"] = sp(k)
+            if which == "mid" and mid is not None:
+                kw["mid_txt"] = sp(mid)
+        return ais.sentence(payload, nf=n, fn=k, mid=mid, fill=0, **kw)
 
     def cases(self, tier, rng):
         alpha = self.alphabet()
@@ -276,8 +315,19 @@ class C06:
                     k2 = k + 1 if rng.random() < 0.75 else rng.randrange(1, n + 1)
                     mid2 = mid if rng.random() < 0.85 else rng.choice([None, 0, 1, 2])
                     k2 = min(k2, n)
-                    ops.append(L(self.mk(rng, n, k2, mid2, bytes([65 + j % 26]), big), 0, dec))
+                    al = rng.random() < 0.12
+                    ops.append(L(self.mk(rng, n, k2, mid2, bytes([65 + j % 26]), big, alias=al), 0, dec))
+                    if al:
+                        continue      # (nearly always rejected; the group stays where it was)
                     cur = (n, k2, mid2) if k2 < n else (cur if rng.random() < 0.3 else None)
+                elif cur and r < 0.62:
+                    # the next number under a smaller (or larger) declared count: `k > n` is still "fragment k" of the
+                    # statement - accepted only as the direct continuation of the open group, and then it closes it
+                    n, k, mid = cur
+                    n2 = rng.choice([max(1, k), max(1, k - 1), k + 1, n + 1, 2])
+                    k2 = rng.choice([k + 1, k + 1, k + 2, n2 + 3])
+                    ops.append(L(self.mk(rng, n2, min(k2, 255), mid, bytes([65 + j % 26]), big), 0, dec))
+                    cur = None if k2 >= n2 else (n2, k2, mid) if k2 == k + 1 else cur
                 elif r < 0.8:
                     n, k, mid = rng.choice(alpha_r)
                     ops.append(L(self.mk(rng, n, k, mid, bytes([65 + j % 26]), big), 0, dec))
@@ -525,7 +575,20 @@ def mixed_stream(rng, tier, n):
         keep = rng.random() < 0.35
         if not keep:
             ops.append("N 0")
-        if r < 0.05:
+        if r < 0.03:
+            # two (or three) groups with different sequence ids whose fragments alternate: a parser follows one
+            # group at a time, so a newcomer abandons the open group - in every build alike
+            ids = rng.sample([None, 0, 1, 2, 3, 9], rng.choice([2, 2, 3]))
+            groups = []
+            for mid_ in ids:
+                p = gen.random_alphabet(rng, rng.choice([8, 20, 60]))
+                k = rng.choice([2, 2, 3])
+                groups.append(frag_lines(rng, p, 0, k, mid_)[1])
+            dec_ = rng.randrange(2)
+            while any(groups):
+                g = rng.choice([g for g in groups if g])
+                ops.append(L(g.pop(0), 0, dec_))
+        elif r < 0.05:
             # a group that is started and abandoned
             p = gen.random_alphabet(rng, rng.choice([12, 40, 90]))
             k = rng.choice([2, 3, 4])
@@ -750,6 +813,19 @@ class C01:
                     ops.append(L(ais.sentence(b"1", nf=255, fn=j, mid=0), 0, 0))
                 ops.append(L(ais.sentence(b"15", nf=n, fn=k, mid=mid), 0, rng.randrange(2)))
                 ops.append(L(ais.sentence(b"15", nf=n, fn=k, mid=mid), 0, rng.randrange(2)))
+        # one structural element repeated many thousands of times: nothing in a line may be processed to a depth
+        # that grows with the line (recursion per tag block, per field, per delimiter)
+        deep_from = len(ops)
+        good_ = ais.sentence(b"15M", fill=0)
+        for reps in ((300, 3000, 30000) if tier == "quick" else (300, 3000, 30000, 200000)):
+            for unit in (b"\\\\", b"\\a\\", b"!", b"$", b",", b"*", b"\\", b"!AIVDM,1,1,,A,15M,0*", b"0", b"A", b"\r", b"1,"):
+                ops += ["N 0", L(unit * reps + good_, 0, 1)]
+                ops += ["N 0", L(good_[:-2] + unit * reps, 0, 1)]
+            ops += ["N 0", L(b"!AIVDM," + b"1" * reps + b",1,,A,15M,0*00", 0, 1),
+                    L(b"!AIVDM,1,1,,A," + b"1" * reps + b",0*00", 0, 1),
+                    L(b"!AIVDM,1,1,,A,15M," + b"0" * reps + b"*00", 0, 1),
+                    L(b"!AIVDM,1,1,,A,15M,0*" + b"0" * reps + b"41", 0, 1)]
+        deep_ops = ops[deep_from:]
         # the full 255-fragment group once
         ops.append("N 0")
         for k in range(1, 256):
@@ -776,13 +852,21 @@ class C01:
             basel = rand_valid_sentence(rng)
             for m in mutations(rng, basel, per=300):
                 ops += ["N 0", L(m, 0, 1)]
-        for cfg in cfgs:
+        # the repeated-element lines and the near misses once more on the std build compiled without optimisation
+        # (opt-level 0, cargo's default for `build` and `test`): an optimiser may turn recursion into a loop
+        okb, blog = core.harness_build(["std0"])
+        runs = [(c, ops) for c in cfgs]
+        if okb:
+            runs.append(("std0", deep_ops + ["N 0"] + [L(l, 0, 1) for l in near_misses(rng)]))
+        else:
+            rep.violation("C01: the unoptimised std harness no longer builds against /repo", {"log": blog[-800:]})
+        for cfg, ops in runs:
             try:
                 impl = core.run_impl(cfg, ops)
             except subprocess.TimeoutExpired:
                 rep.violation(f"C01: the {cfg} build did not terminate within the time limit", {"cfg": cfg, "ops": ops[:50]})
                 continue
-            model = core.run_model(cfg, ops)
+            model = core.run_model("std" if cfg == "std0" else cfg, ops)
             last_n = 0
             for i, (op, a, m) in enumerate(zip(ops, impl, model)):
                 if op.startswith("N "):
@@ -854,13 +938,29 @@ class C20:
             elif r < 0.9:
                 lines.append(rand_valid_sentence(rng) .replace(b"\n", b" "))
             elif r < 0.95:
-                lines.append(rng.choice(near_misses(rng) + 3 * numeric_extremes(rng)).replace(b"\n", b" "))
+                lines.append(rng.choice(_near_pool(rng) + 3 * numeric_extremes(rng)).replace(b"\n", b" "))
             else:
                 lines.append(ais.sentence(gen.random_alphabet(rng, 5), cks=0x100 - 1))
         data = b"\n".join(lines)
         if lines and rng.random() < 0.7:
             data += b"\n"
         return data
+
+    @staticmethod
+    def same_records(got, exp, is_out):
+        """The statement fixes what a record is about (stdout: the decoded message of that line; stderr: that line was
+        rejected), not its layout: when the text is not byte-identical to `{:?}<TAB>{:?}` as the tool prints it today,
+        the records still count as the same if there is one per expected record, in order, every record of a plain-text
+        line contains that line, and every stdout record contains the library's `{:?}` text of the decoded message."""
+        if len(got) != len(exp) or any(not g.strip() for g in got):
+            return False
+        for g, e in zip(got, exp):
+            echo = e.split("\t", 1)[0]
+            if len(echo) >= 2 and echo[0] == '"' and echo[-1] == '"' and "\\" not in echo and echo[1:-1] not in g:
+                return False        # the record is about another line (plain-text lines are recognisable in any layout)
+            if is_out and e.split("\t", 1)[-1] not in g:
+                return False
+        return True
 
     @staticmethod
     def split_records(data):
@@ -925,9 +1025,9 @@ class C20:
             rep.count(f"records:{len(recs)>0}")
             if p.returncode != 0:
                 rep.violation(f"C20: aisparser exited with status {p.returncode}", ctx)
-            elif got_out != exp_out:
+            elif got_out != exp_out and not self.same_records(got_out, exp_out, True):
                 rep.violation("C20: stdout records differ from one record per completed line, in order", ctx)
-            elif got_err != exp_err:
+            elif got_err != exp_err and not self.same_records(got_err, exp_err, False):
                 rep.violation("C20: stderr records differ from one record per rejected line, in order", ctx)
             elif not tie_ok:
                 ctx.update(ctx_tie)
